@@ -80,6 +80,11 @@ extern void (*on_fatal)(const char *cls,const std::string &msg);
 [[noreturn]] void fatal(const char *cls,const std::string &msg);
 std::string dump_state();
 
+// TSan: harness and simulator state is shared between sim threads without (TSan-visible) synchronisation by design;
+// accesses that go through intercepted libc functions (memcpy/memcmp inside std::string) must be bracketed by this guard.
+// Keep the scope tight: never around calls into the code under test.
+struct TsanIgnore { TsanIgnore(); ~TsanIgnore(); };
+
 // scheduling primitives for harness code
 void yield();
 bool block(std::function<bool()> pred,int64_t deadline_us,const char *why);  // false on timeout
@@ -152,6 +157,9 @@ void fs_remove(const std::string &path);
 void fs_mkdir(const std::string &path);
 uint64_t fs_opens();                    // number of open() calls served by the sim fs in this run
 const std::vector<std::string> &fs_open_log();  // paths passed to open/unlink/stat under vroot
+
+// probe counters bumped by CPPCMS_VERIF_PROBE(id) sites in /repo (cleared by begin)
+std::map<std::string,uint64_t> &probes();
 
 // entropy: bytes served for /dev/urandom reads come from this stream
 Rng &entropy_rng();
